@@ -40,7 +40,13 @@ func TestC08(t *testing.T) {
 				builder.BuildUnixFSShardedDirectory(d.Fanout, multihash.SHA2_256, entries[:2], store.New().LinkSystem(false))
 				c.Count("builds_after_other_hasher", 1)
 			}
-			l, size, err := builder.BuildUnixFSShardedDirectory(d.Fanout, multihash.MURMUR3X64_64, entries, st.LinkSystem(false))
+			bls := st.LinkSystem(false)
+			if (len(names)+d.Fanout)%4 == 1 {
+				// a caller's encoder that hands each block over in pieces
+				bls = store.ChunkedEncoders(bls, 1+len(names)%9)
+				c.Count("builds_with_piecewise_encoders", 1)
+			}
+			l, size, err := builder.BuildUnixFSShardedDirectory(d.Fanout, multihash.MURMUR3X64_64, entries, bls)
 			ref := store.New()
 			rs, rerr := oracle.NewRefShard(ref, d.Fanout)
 			if rerr != nil {
